@@ -145,6 +145,12 @@ type Machine struct {
 	cglobals    map[string]*LObj
 	cdepth      int
 	cuninit     int
+	cfds        map[int]*fileObj // C file descriptors (cfs.go)
+	cfdNext     int
+	cerrno      *LObj
+	cclock      int
+	crand       int
+	cdirs       map[*LObj]*cDir
 	hangLimit   int
 	maxSteps    int
 	quietFS     bool
